@@ -20,14 +20,16 @@ func init() {
 			"(R1) every op.Code constant is registered once in the op info table, has exactly one clause in the VM dispatch switch, that clause fetches exactly OperandCount operands on every non-error path, " +
 			"and every emit site in the compiler passes a constant opcode with exactly OperandCount operands; (R2) every token registered as an infix/assignment operator has a precedence entry and is handled by the " +
 			"compiler's infix / assignment switches (all three assignment siblings); (R3) every concrete ast.Node type that a parse function can return as a node has a clause in the compiler's type switch; " +
-			"(R4) the operator string each compiler case maps to an op.BinaryOpType / op.CompareOpType constant agrees with that constant's own String() table, and every such constant is handled by object.Compare / the VM.",
-		NotCovered:  "Semantic preservation itself: precedence values, evaluation order, scoping, the behaviour of each handler beyond its operand/stack arity. Those quantify over all programs and are not decided.",
+			"(R4) the operator string each compiler case maps to an op.BinaryOpType / op.CompareOpType constant agrees with that constant's own String() table, and every such constant is handled by object.Compare / the VM; " +
+			"(R5) lexical scoping, structural part shared with C02: Resolve looks a name up nearest-scope-first (own tables before any enclosing function's cache), variables reach closures through cells into per-activation storage that no later activation re-uses.",
+		NotCovered:  "Semantic preservation itself: precedence values, evaluation order, scoping beyond R5, the behaviour of each handler beyond its operand/stack arity. Those quantify over all programs and are not decided.",
 		Assumptions: []string{"go/types constant evaluation", "the VM effect derivation of rules/vmeffect.go (abstract interpretation of the dispatch clauses; see C04-R1)"},
 		Rules: []*core.Rule{
 			{ID: "C01-R1", Title: "opcode tables agree (op info, VM dispatch, fetch counts, emit sites)", Floor: 120, Run: c01r1},
 			{ID: "C01-R2", Title: "operator tables agree (parser registration, precedences, compiler switches)", Floor: 20, Run: c01r2},
 			{ID: "C01-R3", Title: "every AST node type has a compile clause", Floor: 30, Run: c01r3},
 			{ID: "C01-R4", Title: "operator string -> operation constant agreement", Floor: 15, Run: c01r4},
+			{ID: "C01-R5", Title: "lexical scoping: nearest-scope-first resolution, per-activation variable storage (shared with C02-R2/R3)", Floor: 5, Run: func(c *core.Ctx) { c02r2(c); c02r3(c) }},
 		},
 	})
 }
